@@ -24,6 +24,7 @@ R7  block loop: indicator byte 0 goes to the index and leaves the loop; any
 Declined: that the LZMA2 payload decodes to the right bytes (C02/C01 numerics),
 CRC arithmetic (crc crate).
 """
+import os
 from engine import flow, report
 from engine.flow import Terms, cfg, short
 from rules import pat
@@ -616,6 +617,21 @@ def rule_fragmentation(facts):
 XZ_FUNCS = ("decode::xz::", "xz::header::", "xz::footer::", "xz::StreamFlags", "xz::CheckMethod", "xz::FilterId")
 
 
+def _is_try_switch(b, x):
+    """The switch on the discriminant of a `?` (its Break edge only propagates an error that exists already)."""
+    d = b.blocks[x].term.discr
+    if d.place is None or d.place.proj:
+        return False
+    for blk in b.blocks:
+        for st in blk.stmts:
+            if st.k == "assign" and not st.place.proj and st.place.local == d.place.local and st.rv.k == "discriminant":
+                src = st.rv.place.local
+                for b2 in b.blocks:
+                    if b2.term.k == "call" and flow.is_try_branch(b2.term) and not b2.term.dest.proj and b2.term.dest.local == src:
+                        return True
+    return False
+
+
 def rule_rejections(facts):
     """Exactness includes acceptance: the container parser may build an error only behind one of the format's tests - an
     integrity comparison of the C06 table, a reserved-bit / unsupported-id test of C18, or one of the few listed below.
@@ -651,10 +667,19 @@ def rule_rejections(facts):
             conds = [(gb, t, cond) for (gb, t, cond) in pat.branch_conditions(b, c, e, term_at)
                      if not (t[0] == "discr" and isinstance(t[1], tuple) and t[1] and t[1][0] == "try")]
             why = None
-            for (gb, t, cond) in conds:
-                if (b.defk, gb) in known:
-                    why = "integrity comparison (C06 table)"
+            # the test that decides this rejection: the innermost of the dominating ones
+            conds.sort(key=lambda x: sum(1 for y in conds if c.dominates(y[0], x[0])))
             inner = conds[-1] if conds else None
+            if inner is not None:
+                # ... and really the last one: no further test (a `||` chain, a nested if) between it and the error
+                gb_, _, cond_ = inner
+                tt_ = b.blocks[gb_].term
+                ys = [tg for v, tg in tt_.targets if cond_ == ("is", v)] or ([tt_.otherwise] if cond_[0] == "notin" else [])
+                between = (c.reachable_from(ys[0]) & c.reaching(e)) - {e} if ys else set()
+                if any(b.blocks[x].term.k == "switch" and not _is_try_switch(b, x) for x in between):
+                    inner = None
+            if inner is not None and (b.defk, inner[0]) in known:
+                why = "integrity comparison (C06 table)"
             if why is None and inner is not None:
                 gb, t, cond = inner
                 truth = cond == ("notin", (0,)) or (cond[0] == "is" and cond[1] == 1)
@@ -688,8 +713,12 @@ def rule_rejections(facts):
                     why = "unsupported check (C18.R1b/R5)"
                 elif pat.has_call(t, "PartialEq::eq") and (pat.has_field(t, "check_method") or pat.has_arg(t, "check_method")):
                     why = "unsupported check (C18.R1b/R5)"
+                elif t[0] in ("ok", "okp", "try") and pat.has_call(t, "is_eof") and pat.has_arg(t, "input"):
+                    why = "data after the last stream (C18.R4)"
                 elif pat.has_call(t, "to_be_bytes") and s_ and s_[2] == ("const", 0):
                     why = "stream flags null byte (C18.R3)"
+            if os.environ.get("VERIF_DEBUG_R9"):
+                print("R9", fn, pat.where(b, e), why, flow.show(inner[1])[:100] if inner else None)
             if why:
                 r.ok("guard", {"fn": fn, "rejects": why})
             else:
